@@ -63,6 +63,7 @@ class DefaultTrackerHandler(ResultHandler):
         self._constraint_tolerance = constraint_tolerance
         self._sources = set() if sources is None else sources
         self["results"] = None
+        self._optimal: tuple[FunctionResults, FunctionResults] | None = None
 
     def handle_event(self, event: Event) -> None:
         """Handle an event.
@@ -80,12 +81,20 @@ class DefaultTrackerHandler(ResultHandler):
             filtered_results: FunctionResults | None = None
             match self._what:
                 case "best":
-                    filtered_results = _update_optimal_result(
-                        self["results"],
+                    # The optimum is tracked in the domain of the optimizer. If
+                    # the stored result was replaced from outside, fall back to it:
+                    current = self["results"]
+                    if self._optimal is not None and current is self._optimal[0]:
+                        current = self._optimal[1]
+                    updated = _update_optimal_result(
+                        current,
                         results,
                         transformed_results,
                         self._constraint_tolerance,
                     )
+                    if updated is not None:
+                        self._optimal = updated
+                        filtered_results = updated[0]
                 case "last":
                     filtered_results = _get_last_result(
                         results,
